@@ -792,7 +792,7 @@ def main(argv=None):
                         bad += 1
             if a.dump:
                 for ob in list(r['ctx'].obligations) + list(r.get('canaries') or []):
-                    if a.dump in ob.name:
+                    if (ob.name.endswith(a.dump[:-1]) if a.dump.endswith('$') else a.dump in ob.name):
                         open('/tmp/dump.smt2', 'w').write(solve.emit(r['ctx'], ob))
                         print('dumped', ob.name)
         shutil.rmtree(ses.workdir, ignore_errors=True)
